@@ -31,7 +31,8 @@ def build_stream(rnd, cls):
 
     def transaction(bodycls):
         units.append(('MAIL', 1, b'MAIL FROM:<s%d@x.example>\r\n' % addr()))
-        for _ in range(rnd.randint(1, 2)):
+        # 'many': a transaction whose commands alone run to several kilobytes (a mailing-list expansion sent in one burst)
+        for _ in range(rnd.randint(70, 110) if cls == 'many' and not any(u[0] == 'content' for u in units) else rnd.randint(1, 2)):
             units.append(('RCPT', 1, b'RCPT TO:<r%d@y.example>\r\n' % addr()))
         units.append(('DATA', 1, b'DATA\r\n'))
         nb[0] += 1
@@ -59,7 +60,7 @@ def build_stream(rnd, cls):
             if rnd.random() < 0.3:
                 units.append(('NOOP', 1, b'NOOP\r\n'))
     for k in range(rnd.randint(1, 3)):
-        transaction('plain' if cls == 'auth' else cls if k == 0 or rnd.random() < 0.5 else 'plain')
+        transaction('plain' if cls in ('auth', 'many') else cls if k == 0 or rnd.random() < 0.5 else 'plain')
         r = rnd.random()
         if r < 0.3:
             units.append(('RSET', 1, b'RSET\r\n'))
@@ -128,13 +129,13 @@ def main():
     # the thorough list extends the quick one): the known finding D15 is identified by the fingerprint of each of its
     # bundles, so that any other way of depending on the segmentation is still reported.
     nover = 48 if quick else 400
-    work = [('seeded', it) for it in range(12 if quick else 240)] + [('fixed', j) for j in range(nover) if j % nshards == shard]
+    work = [('seeded', it) for it in range(15 if quick else 300)] + [('fixed', j) for j in range(nover) if j % nshards == shard]
     for kind_, it in work:
         if kind_ == 'fixed':
             cls = 'oversize'
             rnd_ = random.Random(424242 + it)
         else:
-            cls = ['plain', 'cmdlike', 'emptybody', 'auth'][it % 4]
+            cls = ['plain', 'cmdlike', 'emptybody', 'auth', 'many'][it % 5]
             rnd_ = rnd
         units, cfg = build_stream(rnd_, cls)
         total = sum(len(u[2]) for u in units)
